@@ -259,6 +259,12 @@ func NewWatchdog(limit time.Duration) *Watchdog {
 			idle, what := time.Since(w.last), w.what
 			w.mu.Unlock()
 			if idle > limit {
+				// where everything is stuck (goes to stderr, the verdict stays "harness error")
+				buf := make([]byte, 1<<20)
+				buf = buf[:runtime.Stack(buf, true)]
+				if p := os.Getenv("VERIF_STACKS"); p != "" {
+					os.WriteFile(p, buf, 0o644)
+				}
 				Fatal("watchdog: no progress for %v (last: %s); the code under test or the harness is blocked", idle.Round(time.Second), what)
 			}
 		}
